@@ -198,7 +198,7 @@ class Program:
         if rng.random() < 0.3:
             opts["patterns"] = ["low", "mixed", "full"]
         self.world = gen_world(rng, opts)
-        self.gen = Gen(rng, self.world, {"p_comp": 0.3})
+        self.gen = Gen(rng, self.world, {"p_comp": 0.3, "dist_dups": True})
         r = rng.random()
         self.n = rng.randint(1, 10) if r < 0.75 else rng.randint(11, 40)
         self.p_fault = rng.choice([0.1, 0.2, 0.35, 0.5])
